@@ -26,6 +26,7 @@ import (
 	"github.com/cbeuw/Cloak/internal/common"
 	"github.com/cbeuw/Cloak/internal/ecdh"
 	mux "github.com/cbeuw/Cloak/internal/multiplex"
+	"github.com/cbeuw/Cloak/internal/verifhook"
 	vk "github.com/cbeuw/Cloak/internal/verifkit"
 	log "github.com/sirupsen/logrus"
 )
@@ -292,3 +293,82 @@ func muxSession(id uint32, o mux.Obfuscator) *mux.Session {
 }
 
 func netConn(c net.Conn) net.Conn { return c }
+
+// authWindow forces the overlap "connection A is held between authorisation and session
+// attachment while connection B arrives and completes": A parks at hook disp.userResolved, B runs
+// through, then A is released. It returns, per connection, the client's handshake result, the
+// tapped pipe and the server-side session key (nil when no session is registered).
+type awConn struct {
+	uid     []byte
+	sid     uint32
+	key     [32]byte
+	err     error
+	done    bool
+	pipe    *vk.Pipe
+	srvKey  *[32]byte
+	cliConn client.Transport
+}
+
+func authWindow(t *testing.T, transport string, rng *mrand.Rand) (res [2]*awConn, note string) {
+	uidA, uidB := randUID(rng), randUID(rng)
+	g := newSrvRig(t, srvOpts{Bypass: [][]byte{uidA, uidB}})
+	g.serve()
+	defer g.stopClients()
+	release := make(chan struct{})
+	var once sync.Once
+	verifhook.Set("disp.userResolved", func() {
+		first := false
+		once.Do(func() { first = true })
+		if first {
+			<-release
+		}
+	})
+	defer verifhook.Set("disp.userResolved", nil)
+	start := func(uid []byte, sid uint32) *awConn {
+		c := &awConn{uid: uid, sid: sid}
+		cfg := cliCfg{UID: uid, Method: "shadowsocks", Enc: "aes-gcm", Transport: transport, Browser: "firefox", NumConn: 1, SessionID: sid}
+		_, remote, auth, err := g.clientConfigs(cfg)
+		if err != nil {
+			c.err, c.done = err, true
+			return c
+		}
+		var l *vk.Listener = g.lis
+		if transport == "cdn" {
+			l = g.cdnL
+		}
+		conn, pipe, _ := l.DialPipe()
+		c.pipe = pipe
+		c.cliConn = remote.Transport.CreateTransport()
+		go func() {
+			c.key, c.err = c.cliConn.Handshake(conn, auth)
+			c.done = true
+		}()
+		return c
+	}
+	a := start(uidA, 1)
+	vk.Wait() // A is parked inside the server's dispatcher
+	b := start(uidB, 2)
+	vk.Wait()
+	close(release)
+	vk.Wait()
+	time.Sleep(20 * time.Second)
+	vk.Wait()
+	for i, c := range []*awConn{a, b} {
+		res[i] = c
+		var arr [16]byte
+		copy(arr[:], c.uid)
+		g.sta.Panel.activeUsersM.RLock()
+		u := g.sta.Panel.activeUsers[arr]
+		g.sta.Panel.activeUsersM.RUnlock()
+		if u != nil {
+			u.sessionsM.RLock()
+			if s := u.sessions[c.sid]; s != nil {
+				k := s.GetSessionKey()
+				c.srvKey = &k
+			}
+			u.sessionsM.RUnlock()
+		}
+	}
+	// for the CDN transport the tapped pipe is client<->CDN (TLS); the origin side is not needed here
+	return res, ""
+}
